@@ -6,10 +6,10 @@ root = os.path.join(os.path.dirname(os.path.abspath(__file__)), "..", "lean", "L
 base = sys.argv[2] if len(sys.argv) > 2 else sys.argv[1]
 src = open(os.path.join(root, "Props", base + ".lean")).read()
 src = re.sub(r"/-.*?-/", "", src, flags=re.S); src = re.sub(r"--.*", "", src)
-ths = re.findall(r"^\s*(?:protected\s+)?theorem\s+([\w.']+)", src, flags=re.M)
+ths = re.findall(r"^\s*(?:protected\s+)?theorem\s+([\w.'?!]+)", src, flags=re.M)
 ap = os.path.join(root, "Audit", base + ".lean")
 aud = open(ap).read()
-have = set(re.findall(r"#print axioms\s+([\w.']+)", aud))
+have = set(re.findall(r"#print axioms\s+([\w.'?!]+)", aud))
 have_short = {h.split(".")[-1] for h in have}
 missing = [t for t in ths if t.split(".")[-1] not in have_short]
 if missing:
